@@ -196,3 +196,50 @@ Proof. exact Proofs.PolyLemmasWf.wf_poly_example. Qed.
 Example c03_closed_constant_nonvacuous :
   wf_poly {| i_terms := [ {| t_coef := 5; t_vars := [] |} ]; i_vars := [] |} /\ (length (@nil name) <= 1)%nat.
 Proof. exact Proofs.PolyLemmasWf.wf_poly_constant. Qed.
+
+(* ---- FLOAT instance, univariate type: the derivative "to rounding" (Proofs/DerivFloat.v, Flocq) ----
+   [B2R (Prim2B x)] is the real value of the primitive float x; m = length (s_coefs p) - 1 entries in the derived vector;
+   D = sum_{k<m} (k+1) c_{k+1} x^k is the exact derivative (c03_simple) of the real polynomial with the float
+   coefficients' values, A the same with absolute values; eps = 2^-53; exponent 2m+1 (= 2n-1 for n = m+1 coefficients).
+   Hypotheses: n < 2^53; every coefficient product c_{k+1} * ((k+1) as f64) is okmul (finite, exact value zero or
+   >= 2^-1022: Proofs/PolyFloat.v); the hypotheses of c01_eval_simple_float_error for the derived polynomial at x. *)
+From Flocq Require Import Core BinarySingleNaN PrimFloat.
+From SV Require Import Model.Stats Proofs.PolyFloat Proofs.DerivFloat.
+
+Theorem c03_simple_derivative_float_error : forall (p : spoly PrimFloat.float) (x : PrimFloat.float),
+  (Z.of_nat (length (s_coefs p)) < 2 ^ 53)%Z ->
+  (forall k, (k < length (s_coefs p) - 1)%nat -> okmul (nth (S k) (s_coefs p) n0) (nofnat (S k))) ->
+  eval_no_underflow (s_coefs (simple_derivative p)) x ->
+  (forall m, (m <= length (s_coefs (simple_derivative p)))%nat ->
+     is_finite (Prim2B (sum_list (firstn m (eval_terms_from x 0 (s_coefs (simple_derivative p)))))) = true) ->
+  is_finite (Prim2B (eval_simple (simple_derivative p) x)) = true /\
+  Rabs (B2R (Prim2B (eval_simple (simple_derivative p) x))
+        - fold_right (fun k acc => INR (S k) * B2R (Prim2B (nth (S k) (s_coefs p) n0)) * B2R (Prim2B x) ^ k + acc) 0
+            (seq 0 (length (s_coefs p) - 1)))
+    <= ((1 + bpow radix2 (-53)) ^ (2 * (length (s_coefs p) - 1) + 1) - 1)
+       * fold_right (fun k acc => INR (S k) * Rabs (B2R (Prim2B (nth (S k) (s_coefs p) n0))) * Rabs (B2R (Prim2B x)) ^ k + acc) 0
+           (seq 0 (length (s_coefs p) - 1)).
+Proof. exact Proofs.DerivFloat.simple_derivative_float_error. Qed.
+Check c03_simple_derivative_float_error : forall (p : spoly PrimFloat.float) (x : PrimFloat.float),
+  (Z.of_nat (length (s_coefs p)) < 2 ^ 53)%Z ->
+  (forall k, (k < length (s_coefs p) - 1)%nat -> okmul (nth (S k) (s_coefs p) n0) (nofnat (S k))) ->
+  eval_no_underflow (s_coefs (simple_derivative p)) x ->
+  (forall m, (m <= length (s_coefs (simple_derivative p)))%nat ->
+     is_finite (Prim2B (sum_list (firstn m (eval_terms_from x 0 (s_coefs (simple_derivative p)))))) = true) ->
+  is_finite (Prim2B (eval_simple (simple_derivative p) x)) = true /\
+  Rabs (B2R (Prim2B (eval_simple (simple_derivative p) x))
+        - fold_right (fun k acc => INR (S k) * B2R (Prim2B (nth (S k) (s_coefs p) n0)) * B2R (Prim2B x) ^ k + acc) 0
+            (seq 0 (length (s_coefs p) - 1)))
+    <= ((1 + bpow radix2 (-53)) ^ (2 * (length (s_coefs p) - 1) + 1) - 1)
+       * fold_right (fun k acc => INR (S k) * Rabs (B2R (Prim2B (nth (S k) (s_coefs p) n0))) * Rabs (B2R (Prim2B x)) ^ k + acc) 0
+           (seq 0 (length (s_coefs p) - 1)).
+Print Assumptions c03_simple_derivative_float_error.
+
+(* non-vacuity: 3x^2+2x-5 (Proofs.PolyFloat.ex_poly) at x = 1.5 (ex_x1) satisfies every hypothesis; by computation *)
+Example c03_float_nonvacuous :
+  (Z.of_nat (length (s_coefs ex_poly)) < 2 ^ 53)%Z /\
+  (forall k, (k < length (s_coefs ex_poly) - 1)%nat -> okmul (nth (S k) (s_coefs ex_poly) n0) (nofnat (S k))) /\
+  eval_no_underflow (s_coefs (simple_derivative ex_poly)) ex_x1 /\
+  (forall m, (m <= length (s_coefs (simple_derivative ex_poly)))%nat ->
+     is_finite (Prim2B (sum_list (firstn m (eval_terms_from ex_x1 0 (s_coefs (simple_derivative ex_poly)))))) = true).
+Proof. exact Proofs.DerivFloat.ex_derivative_hyps. Qed.
